@@ -15,6 +15,44 @@ CHECKS = {
             'statement. Complete for the stated bound, nothing beyond it.',
             'Trusts the 20-line reference partition in mc/props/c12.py; phase alphabets avoid |diff| == phase_step.',
             'DESIGN.md section 3 / C12'),
+    'C10': ('I', 'bounded-exhaustive input enumeration vs. per-sample brute-force histogram',
+            'Every frequency matrix [T x M] with T*M <= 4 over an edge-hitting alphabet (negative, below range, every edge, '
+            'nextafter-below every edge, midpoints, above range) for linear and log bin sets with 1..3 (quick) / 1..4 '
+            '(thorough) bins, two amplitude presets, both modes, dense + sparse + 1-D marginal, against a triple-loop '
+            'histogram; exact equality (power-of-two amplitudes). Also define_hist_bins(_from_data) on a grid.',
+            'Trusts the brute-force histogram in mc/props/c10.py; NaN frequencies are not in the alphabet.',
+            'DESIGN.md section 3 / C10'),
+    'C11': ('I', 'bounded-exhaustive input enumeration vs. triple-loop brute-force holospectrum',
+            'Every (infr, infr2) pair over edge-hitting alphabets for carrier bin sets 1..3 and AM bin sets 1..2 and a list '
+            'of small shapes (full alphabet for <= 2 or 3 second-level cells, 5-value reduced alphabet for 4-cell shapes), '
+            'both modes, all three squash_time settings, exact comparison with a brute-force loop.',
+            'Trusts the brute-force loop; shapes bounded by 4 second-level cells.',
+            'DESIGN.md section 3 / C11'),
+    'C13': ('I', 'bounded-exhaustive input enumeration vs. criteria evaluated on the wrap partition',
+            'Every phase sequence up to length 5 (quick) / 7 (thorough) over a 6-value alphabet straddling the three edge '
+            'tolerances x every boolean mask (or every block mask) x both return_good settings, is_good on every segment, '
+            'and the Cycles container flag with cache on and off.',
+            'Segments come from the implementation\'s own all-cycles partition (guarded by C12); alphabets avoid tolerance ties.',
+            'DESIGN.md section 3 / C13'),
+    'C14': ('I', 'bounded-exhaustive input enumeration vs. direct per-label computation',
+            'Every label vector up to length 9/12 x 7 reducing functions (one records the exact samples it was handed) x '
+            'output modes; every ordered triple of cycle lengths x 4 quantities x 5 npoints x 4 interpolation kinds for '
+            'phase_align (exact for affine quantities, derived error bound for linear interpolation); every phase '
+            'sequence over bin edges/midpoints for bin_by_phase.',
+            'Interpolation-error bound M*h^2/2 is derived, not calibrated; weights/variance outputs of bin_by_phase are not judged.',
+            'DESIGN.md section 3 / C14'),
+    'C16': ('I', 'bounded-exhaustive structure enumeration vs. set-theoretic definitions',
+            'Every boolean selection vector of length 1..12 and every (selection, cycle lengths, gap placement) structure up '
+            'to 4 (quick) / 6 (thorough) cycles; all 12 map_* and 6 project_* functions plus subset/chain vector '
+            'construction compared with definitions, including round trips and none-markers.',
+            'Accepts None or a negative index as the none marker.',
+            'DESIGN.md section 3 / C16'),
+    'C17': ('I', 'bounded-exhaustive input enumeration, invariant oracle',
+            'Every pair of one-feature arrays with <= 3 (quick) / 4 (thorough) rows over a 5-value alphabet and every pair of '
+            'two-feature arrays with <= 3 rows over {0,1}^2, x K in {1,2,3,4,15} x 3 distance bounds, plus 72 larger '
+            'permuted instances; checks lengths, ranges, injectivity on both sides, K-NN membership, bound, no exception.',
+            'Invariants only - does not require a maximal matching.',
+            'DESIGN.md section 3 / C17'),
 }
 
 NOT_YET = 'check not built yet in this round (planned, see DESIGN.md section 3)'
